@@ -47,6 +47,7 @@ package taskfile
 //@   ensures result == "" ==> cachedSum == checksum       -- no prompt only for the checksum approved last time      [C20]
 //@   ensures cachedSum == "" || cachedSum != checksum ==> result != ""                                               [C20]
 
+//@ ghost var cacheReadOK bool scratch
 //@ func (*Reader).readRemoteNodeContent
 //@   init dlFailed := false
 //@   init promptOKd := false
@@ -59,6 +60,9 @@ package taskfile
 //@   site (*CacheNode).Write#1 requires (prompt == "" || promptOKd) && arg1 == downloadedBytes                       [C20]
 //@   ensures result.1 == nil && !dlFailed && downloadedBytes != nil ==> prompt == "" || promptOKd                    [C20]
 //@   ensures dlFailed && cacheFound ==> result.1 == nil && result.0 == cachedBytes   -- the cache keeps tasks runnable  [C20]
+//@   init cacheReadOK := false
+//@   site (*CacheNode).Read#1 ghost cacheReadOK := result.1 == nil
+//@   ensures dlFailed && cacheReadOK ==> result.1 == nil && result.0 == cachedBytes   -- whenever a cached copy could be read (valid or expired, forced download or not)  [C20]
 
 // plain http is refused unless --insecure, for every kind of remote node
 //@ func NewHTTPNode
@@ -68,3 +72,25 @@ package taskfile
 //@ func NewNode
 //@   site NewGitNode#1 requires arg2 == insecure                                                                     [C20]
 //@   site NewHTTPNode#1 requires arg2 == insecure                                                                    [C20]
+
+// ---- C08: a relative include dir is resolved against the directory of the INCLUDING Taskfile's own file -------
+//@ ghost var entryDir string scratch
+//@ func (*FileNode).ResolveDir
+//@   site filepath.Dir#1 requires arg0 == node.Entrypoint                                                      [C08]
+//@   site filepath.Dir#1 ghost entryDir := result
+//@   site filepathext.SmartJoin#1 requires arg0 == entryDir                                                    [C08]
+
+// ---- C09 / C20: the cache entry of a remote Taskfile is named after its WHOLE location (query included): two
+// includes that differ anywhere in their URL never share a cache file
+//@ ghost var keyLoc string scratch
+//@ func (*HTTPNode).CacheKey
+//@   site (*HTTPNode).Location#1 requires arg0 == node
+//@   site (*HTTPNode).Location#1 ghost keyLoc := result
+//@   site checksum#1 requires arg0 == conv(type([]byte), keyLoc)                                               [C09,C20]
+
+// The trust prompt is asked under a mutex (one question at a time); the closure must leave it unlocked on every
+// path, or the next include waits forever.
+//@ func (*Reader).readRemoteNodeContent$1
+//@   modifies heap
+//@   blocks
+//@   ensures !held(r.promptMutex)                                                                              [C16,C20]
